@@ -25,13 +25,20 @@ CVC5_TIMEOUT_S = int(os.environ.get('PYVC_CVC5_TIMEOUT_S', '20'))
 
 
 class Clause:
-    def __init__(self, name, props, text=None, fn=None, when='return', note=''):
+    def __init__(self, name, props, text=None, fn=None, when='return', note='', kind='text', replay=None):
         self.name = name
         self.props = set(props)
         self.text = text
         self.fn = fn
         self.when = when        # 'return' | 'raise' | 'raise:<cls>' | 'any' | 'yield'
         self.note = note
+        self.kind = kind        # how the replay harness evaluates the clause on the real objects
+        self.replay = replay or {}
+
+    def to_replay(self):
+        d = {'kind': self.kind, 'text': self.text, 'when': self.when, 'name': self.name}
+        d.update(self.replay)
+        return d
 
     def applies(self, outcome):
         if self.when == 'any':
@@ -233,6 +240,7 @@ class Contract:
                 r = Result('%s/%s' % (self.name, ob.name), obp, st, be, secs,
                            detail=ob.note, path=path_id, contract=self)
                 r.outcome = o
+                r.ob = ob
                 if st == 'failed' and want_models:
                     try:
                         r.model = self._decode(I, model, o)
